@@ -44,9 +44,25 @@ type allSite struct {
 	desc string
 }
 
-// evidence: v being true means the considered execution conformed
+// evidence: the truth value of v tells whether the considered execution conformed (v true =
+// conformed, or - a "changed"/"failed" signal - v false = conformed)
 func (s allSite) evidence(v ssa.Value) bool {
-	return v != nil && s.ok(an.Rel{Op: token.ILLEGAL, X: v, Truth: true})
+	_, ok := s.badVal(v)
+	return ok
+}
+
+// badVal: the value v has for a non-conforming execution.
+func (s allSite) badVal(v ssa.Value) (bool, bool) {
+	if v == nil {
+		return false, false
+	}
+	if s.ok(an.Rel{Op: token.ILLEGAL, X: v, Truth: true}) {
+		return false, true
+	}
+	if s.ok(an.Rel{Op: token.ILLEGAL, X: v, Truth: false}) {
+		return true, true
+	}
+	return false, false
 }
 
 // allCore: R != nil: R (an instruction of site.fn) is not reached after a non-conforming execution
@@ -118,9 +134,7 @@ func allCoreWeb(site allSite, R ssa.Instruction, retIdx int, flag *ssa.Phi) (boo
 	}
 	if flag != nil {
 		collect(flag)
-		if !pure {
-			return false, "the flag also takes values that are neither true/false nor this site's verdict"
-		}
+		_ = pure // a leaf that is neither constant nor the site's verdict takes either value (see step)
 		if len(webList) > 30 {
 			return false, "flag web too large"
 		}
@@ -145,16 +159,16 @@ func allCoreWeb(site allSite, R ssa.Instruction, retIdx int, flag *ssa.Phi) (boo
 				return mask&(1<<uint(i)) != 0, true
 			}
 		}
-		if site.evidence(v) {
+		if bv, isEv := site.badVal(v); isEv {
 			if phase == 0 {
-				return false, true
+				return bv, true
 			}
 			return true, false // a later execution's verdict: unknown
 		}
 		return true, false
 	}
-	step := func(from, to *ssa.BasicBlock, mask uint32, phase int) uint32 {
-		n := mask
+	step := func(from, to *ssa.BasicBlock, mask uint32, phase int) []uint32 {
+		outs := []uint32{mask}
 		for _, in := range to.Instrs {
 			ph, ok := in.(*ssa.Phi)
 			if !ok {
@@ -166,16 +180,21 @@ func allCoreWeb(site allSite, R ssa.Instruction, retIdx int, flag *ssa.Phi) (boo
 			}
 			for k, pred := range to.Preds {
 				if pred == from {
-					v, _ := valOf(ph.Edges[k], mask, phase)
-					if v {
-						n |= 1 << uint(i)
-					} else {
-						n &^= 1 << uint(i)
+					v, known := valOf(ph.Edges[k], mask, phase)
+					var next []uint32
+					for _, n := range outs {
+						if v || !known {
+							next = append(next, n|1<<uint(i))
+						}
+						if !v || !known {
+							next = append(next, n&^(1<<uint(i)))
+						}
 					}
+					outs = next
 				}
 			}
 		}
-		return n
+		return outs
 	}
 	hit := func(in ssa.Instruction, mask uint32, phase int) bool {
 		if R != nil {
@@ -199,28 +218,6 @@ func allCoreWeb(site allSite, R ssa.Instruction, retIdx int, flag *ssa.Phi) (boo
 		}
 		return false, phase
 	}
-	seen := map[st]bool{}
-	var work []st
-	push := func(b *ssa.BasicBlock, mask uint32, phase int) {
-		for _, s := range b.Succs {
-			if cnd, t, ok := an.EdgeCond(b, s); ok {
-				if phase == 0 && an.EdgeHolds(b, s, site.ok) {
-					continue
-				}
-				r := an.Normalize(cnd, t)
-				if r.Op == token.ILLEGAL {
-					if v, known := valOf(r.X, mask, phase); known && v != r.Truth {
-						continue // the branch contradicts the tracked value
-					}
-				}
-			}
-			n := st{s, step(b, s, mask, phase), phase}
-			if !seen[n] {
-				seen[n] = true
-				work = append(work, n)
-			}
-		}
-	}
 	sb := S.Block()
 	si := 0
 	for i, in := range sb.Instrs {
@@ -228,21 +225,56 @@ func allCoreWeb(site allSite, R ssa.Instruction, retIdx int, flag *ssa.Phi) (boo
 			si = i + 1
 		}
 	}
-	if h, _ := scan(sb, si, full, 0); h {
-		return false, "an element that did not satisfy the condition reaches the guarded site directly"
-	}
-	push(sb, full, 0)
-	for len(work) > 0 {
-		cur := work[len(work)-1]
-		work = work[:len(work)-1]
-		h, nphase := scan(cur.b, 0, cur.mask, cur.phase)
-		if h {
-			if cur.phase == 0 {
-				return false, "an element that did not satisfy the condition leaves the verdict true"
-			}
-			return false, "the verdict can become true again after a non-conforming element was examined"
+	// the flags may hold any value when the non-conforming execution happens (true-is-good and
+	// true-is-bad flags alike): every initial valuation is explored
+	inits := []uint32{full}
+	if len(webList) > 0 && len(webList) <= 6 {
+		inits = inits[:0]
+		for m := uint32(0); m <= full; m++ {
+			inits = append(inits, m)
 		}
-		push(cur.b, cur.mask, nphase)
+	}
+	for _, init := range inits {
+		seen := map[st]bool{}
+		var work []st
+		push := func(b *ssa.BasicBlock, mask uint32, phase int) {
+			for _, s := range b.Succs {
+				if cnd, t, ok := an.EdgeCond(b, s); ok {
+					if phase == 0 && an.EdgeHolds(b, s, site.ok) {
+						continue
+					}
+					r := an.Normalize(cnd, t)
+					if r.Op == token.ILLEGAL {
+						if v, known := valOf(r.X, mask, phase); known && v != r.Truth {
+							continue // the branch contradicts the tracked value
+						}
+					}
+				}
+				for _, nm := range step(b, s, mask, phase) {
+					n := st{s, nm, phase}
+					if !seen[n] {
+						seen[n] = true
+						work = append(work, n)
+					}
+				}
+			}
+		}
+		if h, _ := scan(sb, si, init, 0); h {
+			return false, "an element that did not satisfy the condition reaches the guarded site directly"
+		}
+		push(sb, init, 0)
+		for len(work) > 0 {
+			cur := work[len(work)-1]
+			work = work[:len(work)-1]
+			h, nphase := scan(cur.b, 0, cur.mask, cur.phase)
+			if h {
+				if cur.phase == 0 {
+					return false, "an element that did not satisfy the condition leaves the verdict true"
+				}
+				return false, "the verdict can become true again after a non-conforming element was examined"
+			}
+			push(cur.b, cur.mask, nphase)
+		}
 	}
 	return true, fmt.Sprintf("%s: every non-conforming execution clears the verdict (%d flag phi(s)) and nothing sets it again", an.FnName(site.fn), len(webList))
 }
